@@ -1,5 +1,6 @@
 import Capella.Lemmas.Decl
 import Capella.Lemmas.DeclCE2
+import Capella.Lemmas.DeclOrder2
 
 /-!
 # C12 — declarative modelling resolves promises independently of declaration order
@@ -334,6 +335,53 @@ theorem C12_partial_any {mm : MM} {g : Graph} {pm : Str → Option Id} {doc doc'
   exact ⟨hids, fun o a => members_perm hedges o a,
     fun p => lookup_of_perm hps (apply_ok_nodup h) (apply_ok_nodup h') p⟩
 
+/-! ## success and failure do not depend on the order
+
+`CleanDoc g doc`: create/extend only; parents and reference entries of lists are `!promise` or `!uuid` of
+an object of the initial graph `g`; attribute values are plain strings, `!promise` or such `!uuid`s (a
+`!find` is evaluated against the model of its moment and is outside this fragment, as are plain-string
+children); `mm.Total`: the metamodel accepts every creation (its TypeErrors/ValueErrors are raised per
+creation site and are compared by the correspondence).  The two known order findings concern the *order of
+siblings* in the result and do not touch these statements. -/
+
+/-- **If one order of the instructions can be applied, every order can** — whatever is deferred, re-queued
+and deferred again on the way: nothing is lost and nothing raises. -/
+theorem success_order_independent {mm : MM} {g : Graph} {doc doc' : List Instr} {r : Graph × Promises}
+    (ht : mm.Total) (hdoc : CleanDoc g doc) (hp : doc.Perm doc') (h : apply mm g doc = .ok r) :
+    ∃ r', apply mm g doc' = .ok r' :=
+  success_transfers ht hdoc hp h
+
+/-- **If one order raises, every order raises** (a dangling `!promise` or a duplicated `promise_id` is never
+silently accepted in some lucky order). -/
+theorem failure_order_independent {mm : MM} {g : Graph} {doc doc' : List Instr} {e : Err}
+    (ht : mm.Total) (hdoc : CleanDoc g doc) (hp : doc.Perm doc') (h : apply mm g doc = .error e) :
+    ∃ e', apply mm g doc' = .error e' := by
+  cases h' : apply mm g doc' with
+  | error e' => exact ⟨e', rfl⟩
+  | ok r' =>
+    have hdoc' : CleanDoc g doc' := fun i hi => hdoc i (hp.mem_iff.mpr hi)
+    obtain ⟨r, hr⟩ := success_transfers ht hdoc' hp.symm h'
+    rw [h] at hr; cases hr
+
+/-- **The only ways such a document fails**: "promise_id defined twice" for an id the document declares
+at least twice, or `UnfulfilledPromisesError` naming a non-empty set of ids each of which the document
+references. -/
+theorem failure_kinds {mm : MM} {g : Graph} {doc : List Instr} {e : Err} (ht : mm.Total)
+    (hdoc : CleanDoc g doc) (h : apply mm g doc = .error e) :
+    (∃ p, e = .dupPromise p ∧ 2 ≤ docN scN pm0 (keyInd p) doc) ∨
+    (∃ l, e = .unfulfilled l ∧ l ≠ [] ∧ ∀ p ∈ l, 1 ≤ docN scN pm0 (ind (.use p)) doc) :=
+  clean_apply_error ht hdoc h
+
+/-- a duplicated id fails in **every** order: no order of a document that declares an id twice succeeds -/
+theorem duplicate_fails_in_every_order {mm : MM} {g : Graph} {doc doc' : List Instr} {p : Str}
+    (hdoc : PlainCE doc) (hp : doc.Perm doc') (h2 : 2 ≤ declTotal doc p) (r : Graph × Promises) :
+    apply mm g doc' ≠ .ok r := by
+  intro h
+  have hdoc' : PlainCE doc' := fun i hi => hdoc i (hp.mem_iff.mpr hi)
+  have := duplicate_promise_raises (mm := mm) (g := g) (g' := r.1) (ps' := r.2) hdoc' h p
+  have hperm : declTotal doc' p = declTotal doc p := (docN_perm hp).symm
+  omega
+
 /-! ## non-vacuity -/
 
 /-- the witness is a create/extend document, both orders succeed, `K` is bound to its declarer (13) -/
@@ -351,6 +399,24 @@ example : (match apply (MM.free []) witnessGraph [witness.head!] with | .error e
     = some (.unfulfilled [s "K"]) := by decide
 example : (match apply (MM.free []) witnessGraph (witness ++ [witness.getLast!]) with | .error e => some e | .ok _ => none)
     = some (.dupPromise (s "K")) := by decide
+/-- the witness is a clean document over its graph under the permissive metamodel: both orders succeed
+(`witness_orders`), as `success_order_independent` says -/
+example : CleanDoc witnessGraph witness := by
+  intro i hi
+  simp only [witness, List.mem_cons, List.mem_nil_iff, or_false] at hi
+  rcases hi with rfl | rfl <;>
+    simp [Instr.all, kidsAll, itemsAll, Item.all, cleanHead, cleanQ, Val.cleanRef, Val.cleanScal, Atom.okIn] <;> decide
+example : (MM.free []).Total := total_free []
+/-- … and a dangling reference fails in both orders, a cyclic pair of promises fails as unfulfilled -/
+example : (match apply (MM.free []) witnessGraph [witness.head!] with | .error e => some e | .ok _ => none)
+    = some (.unfulfilled [s "K"]) := by decide
+def cyclic : List Instr := [
+  { parent := .atom (.uuid 1),
+    ext := [(s "classes", [
+      .obj 10 (some (s "A")) none [(s "super", .atom (.promise (s "B")))] [],
+      .obj 11 (some (s "B")) none [(s "super", .atom (.promise (s "A")))] []])] }]
+example : (match apply (MM.free []) witnessGraph cyclic with | .error e => some e | .ok _ => none)
+    = some (.unfulfilled [s "B", s "A"]) := by decide
 /-- the measure of the witness and a transition that lowers it -/
 example : (init witnessGraph witness).measure = 23 := by decide
 
